@@ -172,6 +172,19 @@ func NewMessageForStream(stream StreamInterface) *Message {
 	}
 }
 
+// encryptionOverhead is the most a protected frame grows on the wire: the 16-byte
+// AES-GCM tag plus the 16-byte IV carried by a direction's first frame.
+const encryptionOverhead = 32
+
+// maxFramePayload is the largest payload a single frame may carry so that its
+// wire size stays within the receiver's MaxFrameSize limit.
+func (m *Message) maxFramePayload() int {
+	if m.stream.IsEncrypted() {
+		return MaxFrameSize - encryptionOverhead
+	}
+	return MaxFrameSize
+}
+
 // ensureData ensures there's enough data in the buffer for the requested read
 // If not enough data is available, it reads additional frames from the stream
 func (m *Message) ensureData(ctx context.Context, needed int) error {
@@ -570,7 +583,7 @@ func (m *Message) PutString(ctx context.Context, s string) error {
 	}
 
 	// For very large strings that exceed MaxFrameSize, handle specially
-	if needed > MaxFrameSize {
+	if needed > m.maxFramePayload() {
 		// Flush current frame if it has data
 		if m.buffer.Len() > 0 {
 			if err := m.FlushFrame(ctx, false); err != nil {
@@ -629,7 +642,7 @@ func (m *Message) PutStringBytes(ctx context.Context, b []byte) error {
 
 	// Large strings: flush, write the (encrypted) length prefix, then stream b and
 	// the null terminator via PutBytes (which splits across frames).
-	if needed > MaxFrameSize {
+	if needed > m.maxFramePayload() {
 		if m.buffer.Len() > 0 {
 			if err := m.FlushFrame(ctx, false); err != nil {
 				return err
@@ -675,8 +688,9 @@ func (m *Message) PutBytes(ctx context.Context, data []byte) error {
 		return nil // No data to write
 	}
 
-	// If the data is larger than MaxFrameSize, we need to split it
-	if length > MaxFrameSize {
+	// If the data is larger than one frame can carry, we need to split it
+	maxPayload := m.maxFramePayload()
+	if length > maxPayload {
 		// Split large data across multiple frames
 		offset := 0
 		for offset < length {
@@ -689,7 +703,7 @@ func (m *Message) PutBytes(ctx context.Context, data []byte) error {
 
 			// Determine how much to write in this frame
 			remaining := length - offset
-			chunkSize := MaxFrameSize
+			chunkSize := maxPayload
 			if remaining < chunkSize {
 				chunkSize = remaining
 			}
